@@ -1,6 +1,15 @@
 package checks
 
-import "fmt"
+import (
+	"bytes"
+	"fmt"
+	"os"
+	"os/exec"
+	"path/filepath"
+	"time"
+
+	"verif/corpus"
+)
 
 // C13: deterministic output (map-order dimension only).
 func C13(c *Ctx) int {
@@ -40,9 +49,82 @@ func C13(c *Ctx) int {
 		c.HandleRepoCex(o, r, nil)
 	}
 	c.ValidateSamples(o, nil, 4)
+	c.historyByProduct(o)
 	o.Assumptions = []string{"the iteration order of Go's built-in maps is an explicit oracle of the engine: a fresh solver variable per range statement, resolved by case split",
 		"a map-order witness cannot be forced natively; counterexamples are replayed by running the native harness (which only confirms when Go happens to pick a differing order)"}
 	o.Outside = []string{"stale files from earlier generations, other working directories, other processes (file-system histories have no encoding here)",
 		"map ranges in codegen that need go/types objects (assign_actions.go, parse_lox.go, emit_lexer.go modes collector): read, all followed by sorting or order-insensitive use, but not executed"}
 	return c.Finish(o)
+}
+
+// historyByProduct is a concrete by-product of the corpus driver, NOT decided
+// by the solver (file-system histories have no encoding in the engine): the
+// real lox generates a larger grammar into a directory, then a smaller one
+// into the same directory, and the three files must equal those of the smaller
+// grammar generated into a fresh directory; the same twice in a row and from
+// another working directory.
+func (c *Ctx) historyByProduct(o *Outcome) {
+	lox, err := c.BuildLox()
+	if err != nil {
+		o.Broken = append(o.Broken, err.Error())
+		return
+	}
+	big := corpus.MustGrammar("H-big", "e = e PLUS t | e MINUS t | t ; t = t MUL f | f ; f = LP e RP | NUM | ID LP e RP")
+	small := corpus.MustGrammar("H-small", "e = e PLUS t | t ; t = NUM")
+	base := filepath.Join(c.Scratch, "hist")
+	gen := func(dir string, g *corpus.Grammar, cwd string) (map[string][]byte, error) {
+		os.MkdirAll(dir, 0755)
+		os.WriteFile(filepath.Join(dir, "go.mod"), []byte("module hist\n\ngo 1.23\n"), 0644)
+		os.WriteFile(filepath.Join(dir, "item.lox"), []byte(g.Lox()), 0644)
+		os.WriteFile(filepath.Join(dir, "parser.go"), []byte(g.ParserGo("hist")), 0644)
+		cmd := exec.Command(lox, dir)
+		cmd.Dir = cwd
+		cmd.Env = goEnv()
+		if out, err := runTimeout(cmd, 2*time.Minute); err != nil {
+			return nil, fmt.Errorf("lox failed: %v: %s", err, out)
+		}
+		files := map[string][]byte{}
+		for _, f := range []string{"base.gen.go", "lexer.gen.go", "parser.gen.go"} {
+			data, err := os.ReadFile(filepath.Join(dir, f))
+			if err != nil {
+				return nil, err
+			}
+			files[f] = data
+		}
+		return files, nil
+	}
+	fresh, err := gen(filepath.Join(base, "fresh"), small, c.Scratch)
+	if err != nil {
+		o.Broken = append(o.Broken, "history by-product: "+err.Error())
+		return
+	}
+	reused := filepath.Join(base, "reused")
+	if _, err := gen(reused, big, c.Scratch); err != nil {
+		o.Broken = append(o.Broken, "history by-product: "+err.Error())
+		return
+	}
+	after, err1 := gen(reused, small, c.Scratch)
+	again, err2 := gen(reused, small, "/")
+	res := map[string]any{}
+	for name, pair := range map[string][2]map[string][]byte{"after-a-larger-grammar": {fresh, after}, "second-run-other-cwd": {fresh, again}} {
+		same := true
+		if pair[1] == nil {
+			same = false
+		}
+		for f, data := range pair[0] {
+			if pair[1] == nil || !bytes.Equal(data, pair[1][f]) {
+				same = false
+			}
+		}
+		res[name] = same
+		if !same {
+			o.Violations = append(o.Violations, fmt.Sprintf("VIOLATION property=C13 replay=%s", c.SaveReplay("history-"+name,
+				map[string]any{"what": "generated files differ from a fresh generation (" + name + "); concrete by-product, not solver-decided",
+					"errors": fmt.Sprint(err1, err2), "small": small.Lox(), "big": big.Lox()})))
+		}
+	}
+	if o.Extra == nil {
+		o.Extra = map[string]any{}
+	}
+	o.Extra["history_by_product_not_solver_decided"] = res
 }
